@@ -160,9 +160,9 @@ func (s Shape3) RefSDF(p kit.V3) Ref {
 		u := s.B.Sub(s.A).Scale(1 / h)
 		t, rho, e := axial(p, s.A, u)
 		pieces := []ppiece{
-			{kit.V2{s.R, 0}, kit.V2{0, 0}}, // bottom cap, outward = -t
-			{kit.V2{s.R, h}, kit.V2{s.R, 0}},
-			{kit.V2{0, h}, kit.V2{s.R, h}},
+			{kit.V2{0, 0}, kit.V2{s.R, 0}}, // bottom cap, outward = -t
+			{kit.V2{s.R, 0}, kit.V2{s.R, h}},
+			{kit.V2{s.R, h}, kit.V2{0, h}},
 		}
 		inside := t >= 0 && t <= h && rho <= s.R
 		return liftProfile(pieces, inside, kit.V2{rho, t}, s.A, u, e, rho)
@@ -172,8 +172,8 @@ func (s Shape3) RefSDF(p kit.V3) Ref {
 		u := s.A.Sub(s.B).Scale(1 / h)
 		t, rho, e := axial(p, s.B, u)
 		pieces := []ppiece{
-			{kit.V2{s.R, 0}, kit.V2{0, 0}}, // base disc, outward = -t
-			{kit.V2{0, h}, kit.V2{s.R, 0}}, // slanted side
+			{kit.V2{0, 0}, kit.V2{s.R, 0}}, // base disc, outward = -t
+			{kit.V2{s.R, 0}, kit.V2{0, h}}, // slanted side
 		}
 		inside := t >= 0 && rho/s.R+t/h <= 1
 		return liftProfile(pieces, inside, kit.V2{rho, t}, s.B, u, e, rho)
@@ -202,15 +202,24 @@ func liftProfile(pieces []ppiece, inside bool, q kit.V2, origin, u, e kit.V3, rh
 	if inside {
 		r.SDF = d
 	}
-	if rho == 0 {
-		// on the axis: pick any radial direction; only flat caps (normal along the axis) stay well defined
+	if scale := math.Abs(near[0]) + math.Abs(near[1]) + math.Abs(q[1]); rho <= 1e-9*scale {
+		// on (or within rounding of) the axis: the radial direction is arbitrary; only flat caps (normal along
+		// the axis) stay well defined
 		if math.Abs(n2[0]) > 1e-12 {
 			smooth = false
+			margin = 0
 		}
-		a, _ := orthoBasis(u)
-		e = a
+		if rho == 0 {
+			a, _ := orthoBasis(u)
+			e = a
+		}
+	}
+	if math.Abs(n2[0]) > 1e-12 && rho < margin {
+		// a piece with a radial normal has a kink on the axis itself
+		margin = rho
 	}
 	r.Smooth = smooth
+	r.Margin = margin
 	r.Nearest = origin.Add(e.Scale(near[0])).Add(u.Scale(near[1]))
 	r.Normal = e.Scale(n2[0]).Add(u.Scale(n2[1]))
 	return r
@@ -290,6 +299,25 @@ func rectRef(min, max, p kit.V3) Ref {
 	return Ref{SDF: best, Nearest: bq, Normal: bn, Smooth: second-best > 0, Margin: second - best}
 }
 
+// AxisDistance returns the distance of p from the shape's axis of symmetry and the distance of p from the
+// point the library measures the axial offset from (cone/cylinder/capsule/torus); ok=false for shapes without one.
+func (s Shape3) AxisDistance(p kit.V3) (rho, span float64, ok bool) {
+	switch s.Kind {
+	case "cylinder", "capsule":
+		u := s.B.Sub(s.A).Unit()
+		_, rho, _ = axial(p, s.A, u)
+		return rho, p.Dist(s.A), true
+	case "cone":
+		u := s.A.Sub(s.B).Unit()
+		_, rho, _ = axial(p, s.B, u)
+		return rho, p.Dist(s.B), true
+	case "torus":
+		_, rho, _ = axial(p, s.A, s.B.Unit())
+		return rho, p.Dist(s.A), true
+	}
+	return 0, 0, false
+}
+
 // RefContains is the analytic membership (closed set).
 func (s Shape3) RefContains(p kit.V3) bool { return s.RefSDF(p).SDF >= 0 }
 
@@ -298,7 +326,13 @@ func (s Shape3) RefContains(p kit.V3) bool { return s.RefSDF(p).SDF >= 0 }
 
 // F draws a float in [lo, hi] (finite, no NaN).
 func F(t *rapid.T, lo, hi float64, label string) float64 {
-	return rapid.Float64Range(lo, hi).Draw(t, label)
+	v := rapid.Float64Range(lo, hi).Draw(t, label)
+	// rapid's shrinker likes values such as 5e-147; differences of such numbers are subnormal and lose all
+	// precision when normalised, which says nothing about the library: flush them to zero
+	if m := math.Max(math.Abs(lo), math.Abs(hi)); math.Abs(v) < 1e-12*m {
+		return 0
+	}
+	return v
 }
 
 // LogF draws a float whose logarithm is uniform in [log lo, log hi].
